@@ -209,6 +209,11 @@ IMPORT_FORMS = [
     ("from pd import *", {"sa": "fn", "sb": "fn"}),
     ("import pa, pb", {"pa": "mod:pa", "pb": "mod:pb"}),
     ("from pa import (f,\n    g as g2)", {"f": "fn", "g2": "fn"}),
+    # bound names that are also builtins
+    ("from pa import f as pow", {"pow": "fn"}),
+    ("from pb import q as abs", {"abs": "fn"}),
+    ("import pb as id", {"id": "mod:pb"}),
+    ("from pa import K as max", {"max": "int"}),
     ("import Pq", {"Pq": "mod:Pq"}),
     ("from Pq import zf", {"zf": "fn"}),
     ("from Pq import ZK, zf as f", {"ZK": "int", "f": "fn"}),
@@ -272,8 +277,10 @@ def gen_expr(env, rng, depth=0):
         return "%s(%s)" % (fn, ", ".join(args))
     if r < 0.8:
         return rng.choice(vals)
-    if r < 0.9 and calls:
+    if r < 0.85 and calls:
         return "[%s(i) for i in (1, 2)]" % rng.choice(calls)
+    if r < 0.9 and calls:
+        return rng.choice(["list(%s(i) for i in (1, 2))", "sum(1 for i in (1, 2) if %s(i))", "{i: %s(i) for i in (1,)}"]) % rng.choice(calls)
     if calls:
         return "(lambda t: %s(t))(3)" % rng.choice(calls)
     return rng.choice(vals)
@@ -334,6 +341,16 @@ def gen_program(rng, missing_names=None, max_stmts=8, allow_nested_imports=True)
                 env[tgt] = "val"
             else:
                 lines.append(rng.choice(["print(%s)", "%s"]) % e)
+        elif r < 0.645:
+            # namespace clean-up: `del` of imported names (read before or never read)
+            cand = [k for k, v in env.items() if v in ("fn", "int", "cls") or v.startswith("mod:")]
+            if cand:
+                ks = rng.sample(cand, min(len(cand), rng.randint(1, 2)))
+                lines.append("del " + ", ".join(ks))
+                for k0 in ks:
+                    env.pop(k0, None)
+            else:
+                lines.append("pass")
         elif r < 0.70:
             ints = [k for k, v in uenv.items() if v == "int"]
             if ints:
@@ -378,7 +395,7 @@ def gen_program(rng, missing_names=None, max_stmts=8, allow_nested_imports=True)
                 shadow = [k for k, v in uenv.items() if v in ("fn", "int", "cls") or v.startswith("mod:")]
                 if shadow:
                     nm = rng.choice(shadow)
-                    default = "%s=1" % nm
+                    default = rng.choice(["%s=1", "%s=1, /", "*, %s=1", "*%s", "**%s", "a0=0, /, *, %s=2"]) % nm
                     body = ["    return %s" % nm]
             if rng.random() < 0.15:
                 fns = [k for k, v in uenv.items() if v == "fn"]
@@ -414,6 +431,8 @@ def gen_program(rng, missing_names=None, max_stmts=8, allow_nested_imports=True)
                 fname = "fn%d" % len(funcs)
                 if kk < 0.2:
                     lines.append("def %s(v=%s.%s):\n    match v:\n        case %s.%s as y0:\n            return y0\n        case _:\n            return 0" % (fname, m0, c0, m0, c0))
+                elif kk < 0.28:
+                    lines.append("def %s(v=%s.%s):\n    match {v: 1}:\n        case {%s.%s: d0, **rest0}:\n            return d0\n    return -1" % (fname, m0, c0, m0, c0))
                 elif kk < 0.35:
                     lines.append("def %s(v=%s.%s):\n    match {1: v}:\n        case {1: %s.%s | 0 as z0, **rest0}:\n            return z0\n    return -1" % (fname, m0, c0, m0, c0))
                 elif kk < 0.5:
@@ -459,6 +478,12 @@ def gen_program(rng, missing_names=None, max_stmts=8, allow_nested_imports=True)
                 lines.append("pass")
         else:
             lines.append(rng.choice(["# comment", "", "pass"]))
+    if missing_names and rng.random() < 0.15:
+        nm, kd = rng.choice(missing_names)
+        if kd == "fn" and nm not in env:
+            at = rng.randint(0, len(lines))
+            lines.insert(at, "print(list(%s(i) for i in (1,)))" % nm)
+            lines.append(rng.choice(["%s = len" % nm, "def %s(*a):\n    return a" % nm, "from pb import q as %s" % nm]))
     for f in funcs:
         lines.append("print(%s())" % f)
     text = "\n".join(lines) + "\n"
